@@ -555,11 +555,19 @@ class Text(JupyterMixin):
         style_map = {index: get_style(span.style) for index, span in enumerated_spans}
         style_map[0] = get_style(self.style)
 
+        # (a span may reach, or lie, beyond the end of the text)
+        text_length = len(text)
         spans = [
             (0, False, 0),
-            *((span.start, False, index) for index, span in enumerated_spans),
-            *((span.end, True, index) for index, span in enumerated_spans),
-            (len(text), True, 0),
+            *(
+                (min(span.start, text_length), False, index)
+                for index, span in enumerated_spans
+            ),
+            *(
+                (min(span.end, text_length), True, index)
+                for index, span in enumerated_spans
+            ),
+            (text_length, True, 0),
         ]
         spans.sort(key=itemgetter(0, 1))
 
